@@ -252,6 +252,23 @@ CHECKS = {
              "(tied by the correspondence). Hypothesis wf: no node/graph object occurs twice in the scope.",
         technique="Coq proof over hand model of reverse-Kahn sort; vm_compute correspondence with Graph.sort",
         design_ref="§6 C12, §10"),
+    "C20": dict(
+        level="proof",
+        text="Restore and transparency theorems proved in Coq for all well-nested programs (unbounded depth, exceptions "
+             "anywhere, try/except anywhere) over the saved/patched/restored key lists and the statement sequences of the "
+             "wrapper factories re-extracted from _wrappers.py on every run (patched ⊆ restored ⊆ saved by vm_compute on the "
+             "generated lists, so a wrapper without its restore breaks the proof); Journal.__enter__/__exit__/record pinned "
+             "by AST digest: after leaving a journal the class table and current journal equal what they were before "
+             "(C20_restore), a wrapped call has the original's heap effect, result and exception plus exactly one entry when "
+             "it returns (C20_wrapped_call), whole journaled programs equal plain runs with entries in program order "
+             "(C20_transparent, C20_entries_count). Tie: journaled-vs-plain differential runs over the C01-style alphabet "
+             "(nesting 0-4, exceptions escaping journals), class-attribute identity at every exit, weak-reference liveness "
+             "after gc, and Coq-evaluated entry logs from a tracer installed beneath the journals.",
+        note=TRUST + "Hypothesis wf: a Journal object is not re-entered while active (C20_reentrant_use_not_restored shows it is "
+             "needed; observation, not a violation). Modelled, not verified: purity of details_func/repr/getattr inside "
+             "wrappers, determinism of the original methods, hooks, threads.",
+        technique="Coq proof over class-table model with wrapper lists regenerated from source; differential journaled/plain runs",
+        design_ref="§6 C20, §10"),
 }
 
 NOT_YET = "no check registered yet in this revision (model under construction; see DESIGN.md §6)"
